@@ -3,7 +3,7 @@
    belief and terminal agree, oracle_step leaves the failure list unchanged.
    Together with the byte-exact correspondence this is the argument that a
    check does not raise an alarm on code that behaves like the model. *)
-From TP Require Import Base Elem Term Screen VT Markup Oracle P_Dec P_VT P_Diff P_Sync P_Step P_Bytes P_Run P_Props P_Link.
+From TP Require Import Base Elem Term Screen VT Markup Oracle P_Dec P_VT P_Diff P_Sync P_Step P_Bytes P_Run P_Props P_Link P_Canvas P_Screen.
 From Coq Require Import ZArith Lia ZifyBool ZifyN ZifyNat.
 Local Open Scope N_scope.
 
@@ -185,4 +185,304 @@ Proof.
   unfold obytes. destruct want; cbn [step]; unfold show_hide; rewrite Ev, E; reflexivity.
 Qed.
 
+
+(* ---- the theorem ------------------------------------------------------------- *)
+Definition model_obs (st : tstate) (o : op) : obs :=
+  mkObs (OTerm o) (obytes beh st o) (fst (step beh st o)).
+
+Definition OInv (s : ostate) : Prop :=
+  Sync beh (os_model s) (os_vt s) /\
+  (forall p, os_expect s = Some p -> ts_cur (os_model s) = Some p).
+
+Lemma wf_op_no_ctl st o : wf_op st o -> no_ctl (op_elems o).
+Proof.
+  assert (E : forall e, wf_elem e = true -> negb (is_control_glyph (eg e)) = true).
+  { intros e He. unfold wf_elem in He. apply andb_prop in He as [He _]. apply andb_prop in He as [He _].
+    rewrite (displayable_not_control _ He). reflexivity. }
+  unfold no_ctl, op_elems. destruct o; cbn [wf_op op_elements forallb]; intros H; try reflexivity.
+  - rewrite (E _ H). reflexivity.
+  - apply forallb_forall. intros e He. apply E. exact (proj1 (forallb_forall _ _) H e He).
+  - destruct H as [H _]. rewrite (E _ H). reflexivity.
+Qed.
+
+Lemma no_ctl_visible es : no_ctl es -> visible es = es.
+Proof.
+  unfold no_ctl, visible. induction es as [|e r IH]; [reflexivity|].
+  cbn [forallb filter]. intros H. apply andb_prop in H as [He Hr]. rewrite He, (IH Hr). reflexivity.
+Qed.
+
+Lemma no_ctl_has_ctl o : no_ctl (op_elems o) -> has_ctl o = false.
+Proof.
+  unfold no_ctl, op_elems, has_ctl. destruct (op_elements o) as [es|]; [|reflexivity].
+  induction es as [|e r IH]; [reflexivity|]. cbn [forallb existsb]. intros H.
+  apply andb_prop in H as [He Hr]. apply negb_true_iff in He. rewrite He, (IH Hr). reflexivity.
+Qed.
+
+Lemma wf_op_elems st o : wf_op st o -> forallb wf_elem (op_elems o) = true.
+Proof.
+  unfold op_elems. destruct o; cbn [wf_op op_elements forallb]; intros H; try reflexivity.
+  - rewrite H. reflexivity.
+  - exact H.
+  - destruct H as [H _]. rewrite H. reflexivity.
+Qed.
+
+Lemma wf_op_not_size st o : wf_op st o -> forall sz, o <> SetSize sz.
+Proof. intros H sz E. subst o. exact H. Qed.
+
+Lemma v_after_model v st o : wf_op st o ->
+  v_after cfg adopt v (model_obs st o) = vt_bytes cfg v (obytes beh st o).
+Proof. intros H. unfold v_after, model_obs. cbn [o_op o_bytes]. destruct o; try reflexivity. contradiction. Qed.
+
+Lemma modes_clause st v o : Sync beh st v -> wf_op st o ->
+  let v' := vt_bytes cfg v (obytes beh st o) in
+  modes_of v' = op_modes beh v o ->
+  bad_1101 beh v v' (obytes beh st o) o = false.
+Proof.
+  intros S Hwf v' Hm. unfold op_modes in Hm.
+  destruct o; cbn [bad_1101]; try reflexivity.
+  - apply modes_proj in Hm as (A & _). rewrite A. reflexivity.
+  - apply modes_proj in Hm as (A & _). rewrite A. reflexivity.
+  - pose proof (sync_mouse cfg beh st v true S) as H. cbv zeta in H. destruct H as (_ & _ & _ & Hnone).
+    unfold mouse_modes in Hm. destruct (mouse_mode beh) as [m|] eqn:Em.
+    + destruct (m =? 1000) eqn:E1.
+      * apply N.eqb_eq in E1. subst m. apply modes_proj in Hm as (_ & A & B & _). rewrite A, B, Bool.eqb_reflx. reflexivity.
+      * assert (Hm' : modes_of v' = (vis v, m1000 v, true, altbuf v, title v)).
+        { rewrite Hm. destruct m as [|m]; [reflexivity|]. do 10 (destruct m as [m|m|]; try reflexivity). cbn in E1. discriminate. }
+        apply modes_proj in Hm' as (_ & A & B & _). rewrite A, B, Bool.eqb_reflx.
+        destruct m as [|m]; [reflexivity|]. do 10 (destruct m as [m|m|]; try reflexivity). cbn in E1. discriminate.
+    + unfold obytes. cbn [step]. rewrite (Hnone eq_refl). reflexivity.
+  - pose proof (sync_mouse cfg beh st v false S) as H. cbv zeta in H. destruct H as (_ & _ & _ & Hnone).
+    unfold mouse_modes in Hm. destruct (mouse_mode beh) as [m|] eqn:Em.
+    + destruct (m =? 1000) eqn:E1.
+      * apply N.eqb_eq in E1. subst m. apply modes_proj in Hm as (_ & A & B & _). rewrite A, B, Bool.eqb_reflx. reflexivity.
+      * assert (Hm' : modes_of v' = (vis v, m1000 v, false, altbuf v, title v)).
+        { rewrite Hm. destruct m as [|m]; [reflexivity|]. do 10 (destruct m as [m|m|]; try reflexivity). cbn in E1. discriminate. }
+        apply modes_proj in Hm' as (_ & A & B & _). rewrite A, B, Bool.eqb_reflx.
+        destruct m as [|m]; [reflexivity|]. do 10 (destruct m as [m|m|]; try reflexivity). cbn in E1. discriminate.
+    + unfold obytes. cbn [step]. rewrite (Hnone eq_refl). reflexivity.
+  - apply modes_proj in Hm as (_ & _ & _ & A & _). rewrite A. reflexivity.
+  - apply modes_proj in Hm as (_ & _ & _ & A & _). rewrite A. reflexivity.
+  - pose proof (sync_title cfg beh st v t S) as H. cbv zeta in H. destruct H as (_ & _ & _ & Hnone).
+    unfold title_modes in Hm. destruct (b_title_bel beh || b_title_st beh) eqn:E.
+    + apply modes_proj in Hm as (_ & _ & _ & _ & A). rewrite A, bytes_eqb_refl. reflexivity.
+    + unfold obytes. cbn [step]. rewrite (Hnone eq_refl). reflexivity.
+Qed.
+
+
+Lemma resend_clause st o : bad_1301 st (obytes beh st o) o = false.
+Proof.
+  destruct o; cbn [bad_1301]; try reflexivity.
+  - destruct (ts_last st) as [l|] eqn:El; [|reflexivity]. exact (resend_clause_elem st l e false El).
+  - destruct (ts_last st) as [l|] eqn:El; [|reflexivity]. exact (resend_clause_elem st l e true El).
+  - exact (resend_clause_move st p).
+  - exact (resend_clause_vis st true).
+  - exact (resend_clause_vis st false).
+Qed.
+
+Lemma erase_clause' st v o : Sync beh st v -> wf_op st o ->
+  bad_901 v (vt_bytes cfg v (obytes beh st o)) o = false.
+Proof.
+  intros S Hwf. destruct o; cbn [bad_901]; try reflexivity.
+  rewrite (step_bytes cfg beh Huni st v (Erase k) S Hwf).
+  pose proof (erase_clause st v k S) as H. cbv zeta in H. rewrite H. reflexivity.
+Qed.
+
+Theorem oracle_step_sound s o :
+  OInv s -> wf_op (os_model s) o ->
+  let s' := oracle_step cfg beh adopt true s (model_obs (os_model s) o) in
+  os_fail s' = os_fail s /\ OInv s' /\ os_model s' = fst (step beh (os_model s) o).
+Proof.
+  intros [S Hex] Hwf.
+  set (st := os_model s) in *. set (v := os_vt s) in *.
+  pose proof (sync_step cfg beh Huni st v o S Hwf) as H. cbv zeta in H.
+  destruct H as (S' & (tr & Hpl & Htr) & Hm).
+  pose proof (wf_op_no_ctl st o Hwf) as Hnc.
+  pose proof (new_trace_app v _ tr Htr) as Hnt.
+  pose proof (step_size beh st o (wf_op_not_size st o Hwf)) as Hsz.
+  assert (Hw : fst (vsize (vt_bytes cfg v (obytes beh st o))) = fst (ts_size st)).
+  { rewrite <- (sy_size _ _ _ S'), Hsz. reflexivity. }
+  destruct (placed_positions_ok (fst (ts_size st)) (op_elems o) (ts_cur st) tr (os_expect s) Hpl Hex) as [Hpos Hexp].
+  unfold oracle_step. cbv zeta. fold v. fold st.
+  rewrite (v_after_model v st o Hwf).
+  cbn [o_op o_bytes o_st model_obs].
+  rewrite Hnt.
+  assert (B101 : bad_101 (vt_bytes cfg v (obytes beh st o)) = false) by exact (sync_clause_101 _ _ _ S').
+  assert (B801 : truthful beh (fst (step beh st o)) (vt_bytes cfg v (obytes beh st o)) = true) by exact (sync_truthful _ _ _ S').
+  assert (B102 : bad_102 tr o = false).
+  { unfold bad_102. unfold op_elems in Hpl, Hnc. destruct (op_elements o) as [es|]; [|reflexivity].
+    rewrite (no_ctl_visible es Hnc), (placed_cells_match _ _ _ _ Hpl). reflexivity. }
+  assert (B1701 : bad_1701 tr o = false).
+  { unfold bad_1701. pose proof (wf_op_elems st o Hwf) as Hel. unfold op_elems in Hpl, Hnc, Hel.
+    destruct (op_elements o) as [es|]; [|reflexivity].
+    rewrite (no_ctl_visible es Hnc), (placed_text _ _ _ _ Hpl Hel), bytes_eqb_refl. reflexivity. }
+  assert (B103 : bad_103 tr o = false).
+  { unfold bad_103. unfold op_elems in Hpl. destruct (op_elements o) as [es|]; [reflexivity|].
+    inversion Hpl. reflexivity. }
+  assert (Bpos : pos_result (fst (vsize (vt_bytes cfg v (obytes beh st o)))) (os_expect s) tr o
+                 = positions_ok (fst (ts_size st)) (os_expect s) tr).
+  { unfold pos_result. rewrite (no_ctl_has_ctl o Hnc), Hw. reflexivity. }
+  rewrite B101, B801, B102, B1701, B103, Bpos, Hpos,
+          (erase_clause' st v o S Hwf), (modes_clause st v o S Hwf Hm), (resend_clause st o).
+  cbn [negb andb fail_if os_fail os_model os_vt os_expect].
+  split; [reflexivity|]. split; [|reflexivity].
+  split; [exact S'|].
+  intros p Hp. cbn [os_model os_expect] in Hp |- *. rewrite (step_cur beh st o Hnc).
+  unfold next_expect in Hp.
+  destruct o; try (apply Hexp; exact Hp); try discriminate.
+  destruct (inside p0 _); [exact Hp|discriminate].
+Qed.
+
+
+Theorem oracle_step_sound_resize s sz :
+  OInv s ->
+  let s' := oracle_step cfg beh adopt true s (model_obs (os_model s) (SetSize sz)) in
+  os_fail s' = os_fail s /\ OInv s' /\ os_model s' = fst (step beh (os_model s) (SetSize sz)).
+Proof.
+  intros [S Hex].
+  set (st := os_model s) in *. set (v := os_vt s) in *.
+  destruct (sync_resize beh st v sz (adopt (vcur v) sz) S) as (S' & Ht & _).
+  assert (Hnt : new_trace v (vt_resize v sz (adopt (vcur v) sz)) = []).
+  { apply new_trace_app. rewrite Ht. reflexivity. }
+  unfold oracle_step. cbv zeta. fold v. fold st.
+  unfold v_after. cbn [o_op o_bytes o_st model_obs]. rewrite Hnt.
+  assert (B101 : bad_101 (vt_resize v sz (adopt (vcur v) sz)) = false) by exact (sync_clause_101 _ _ _ S').
+  assert (B801 : truthful beh (fst (step beh st (SetSize sz))) (vt_resize v sz (adopt (vcur v) sz)) = true)
+    by exact (sync_truthful _ _ _ S').
+  rewrite B101, B801.
+  cbn [bad_102 bad_1701 bad_103 op_elements pos_result has_ctl positions_ok bad_901 bad_1101 bad_1301
+       negb andb fst snd fail_if next_expect].
+  split; [reflexivity|]. split; [|reflexivity].
+  split; [exact S'|]. intros p Hp. discriminate.
+Qed.
+
+(* ---- histories: the oracle reports nothing on the model's own observations ---- *)
+Fixpoint model_hist (st : tstate) (ops : list op) : list obs :=
+  match ops with
+  | [] => []
+  | o :: r => model_obs st o :: model_hist (fst (step beh st o)) r
+  end.
+
+Fixpoint wf_ops (st : tstate) (ops : list op) : Prop :=
+  match ops with
+  | [] => True
+  | o :: r => (match o with SetSize _ => True | _ => wf_op st o end) /\
+              wf_ops (fst (step beh st o)) r
+  end.
+
+Lemma oracle_fold_sound : forall ops s,
+  OInv s -> wf_ops (os_model s) ops ->
+  os_fail (fold_left (oracle_step cfg beh adopt true) (model_hist (os_model s) ops) s) = os_fail s.
+Proof.
+  induction ops as [|o r IH]; intros s I Hwf; [reflexivity|].
+  cbn [model_hist fold_left]. cbn [wf_ops] in Hwf. destruct Hwf as [Ho Hr].
+  assert (H : let s' := oracle_step cfg beh adopt true s (model_obs (os_model s) o) in
+              os_fail s' = os_fail s /\ OInv s' /\ os_model s' = fst (step beh (os_model s) o)).
+  { destruct o; try exact (oracle_step_sound s _ I Ho). exact (oracle_step_sound_resize s sz I). }
+  cbv zeta in H. destruct H as (Hf & I' & Hmod).
+  rewrite <- Hmod in Hr |- *. rewrite (IH _ I' Hr). exact Hf.
+Qed.
+
+Theorem oracle_run_sound v0 ops :
+  vt0_ok v0 -> wf_ops init_tstate ops ->
+  oracle_run cfg beh adopt true v0 (model_hist init_tstate ops) = [].
+Proof.
+  intros Hv Hwf. unfold oracle_run.
+  set (s0 := mkO v0 init_tstate init_tstate None (blank_canvas 0 0) 0 []).
+  assert (I : OInv s0). { split; [exact (sync_init beh v0 Hv)|]. intros p Hp. discriminate. }
+  change init_tstate with (os_model s0) at 1.
+  rewrite (oracle_fold_sound ops s0 I Hwf). reflexivity.
+Qed.
+
 End Sound.
+
+(* ---- draws ---------------------------------------------------------------------- *)
+Lemma list_eqb_nth {A} (f : A -> A -> bool) (d : A) : f d d = true ->
+  forall a b, list_eqb f a b = true -> forall i, f (nth i a d) (nth i b d) = true.
+Proof.
+  intros Hd. induction a as [|x a IH]; intros [|y b] H i; cbn [list_eqb] in H; try discriminate.
+  - destruct i; exact Hd.
+  - apply andb_prop in H as [Hxy Hab]. destruct i as [|i]; cbn [nth]; [exact Hxy|]. exact (IH b Hab i).
+Qed.
+
+Lemma trace_is_map l :
+  trace_is (map (fun pe : pt * element => (fst pe, display_of (snd pe))) l) l = true.
+Proof.
+  induction l as [|[p e] r IH]; [reflexivity|].
+  cbn [map trace_is fst snd]. rewrite pt_eqb_refl, cell_eqb_refl, IH. reflexivity.
+Qed.
+
+Section DrawSound.
+Variable cfg : vtcfg.
+Variable beh : behaviour.
+Variable adopt : pt -> pt -> pt.
+Hypothesis Huni : b_unicode_all beh = true -> unicode_all cfg = true.
+
+Definition draw_obs (lf : canvas) (st : tstate) (c : canvas) : obs :=
+  mkObs (ODraw c) (render_all (snd (draw beh (mkScreen lf) st c)))
+        (snd (fst (draw beh (mkScreen lf) st c))).
+
+Lemma draw_state lf st c :
+  snd (fst (draw beh (mkScreen lf) st c)) = fst (run beh st (draw_ops (mkScreen lf) c)).
+Proof. unfold draw. destruct (run beh st (draw_ops (mkScreen lf) c)). reflexivity. Qed.
+
+Lemma same_grid_silent lf st c :
+  (cw c =? cw lf) && (ch c =? ch lf) = true ->
+  list_eqb element_eqb (grid lf) (grid c) = true ->
+  render_all (snd (draw beh (mkScreen lf) st c)) = [].
+Proof.
+  intros Hs Hg.
+  assert (Hops : draw_ops (mkScreen lf) c = []).
+  { rewrite draw_ops_changed. cbn [last_frame]. rewrite Hs. cbn [app].
+    unfold prev_frame. cbn [last_frame]. rewrite Hs.
+    assert (Hnil : changed_cells lf c = []).
+    { unfold changed_cells. destruct (filter _ _) as [|pe r] eqn:Ef; [reflexivity|].
+      exfalso. assert (Hin : In pe (pe :: r)) by (left; reflexivity). rewrite <- Ef in Hin.
+      destruct (in_changed _ _ _ Hin) as (Hx & Hy & He & Hne). rewrite He in Hne.
+      apply andb_prop in Hs as [Hw _]. apply N.eqb_eq in Hw.
+      unfold cv_get, cv_index in Hne. rewrite <- Hw in Hne.
+      rewrite (list_eqb_nth element_eqb default_element eq_refl _ _ Hg) in Hne. discriminate. }
+    rewrite Hnil. reflexivity. }
+  unfold draw. rewrite Hops. reflexivity.
+Qed.
+
+Theorem oracle_draw_sound s c :
+  Sync beh (os_model s) (os_vt s) -> Frame (os_frame s) (os_vt s) ->
+  ts_size (os_model s) = (cw c, ch c) -> canvas_elems_wf c -> wrap cfg <> Immediate ->
+  let s' := oracle_step cfg beh adopt true s (draw_obs (os_frame s) (os_model s) c) in
+  os_fail s' = os_fail s /\ Sync beh (os_model s') (os_vt s') /\ Frame (os_frame s') (os_vt s') /\
+  os_frame s' = c /\ ts_size (os_model s') = ts_size (os_model s).
+Proof.
+  intros S F Hsz Hwf Hw.
+  set (st := os_model s) in *. set (v := os_vt s) in *. set (lf := os_frame s) in *.
+  pose proof (draw_correct cfg beh Huni (mkScreen lf) st v c S Hsz Hwf (fun _ => F) (or_introl Hw)) as H.
+  cbv zeta in H. destruct H as (S' & F' & _ & Hsz' & Htr).
+  pose proof (new_trace_app v _ _ Htr) as Hnt.
+  unfold oracle_step. cbv zeta. fold v. fold st. fold lf.
+  unfold v_after. cbn [o_op o_bytes o_st draw_obs]. rewrite Hnt.
+  set (bytes := render_all (snd (draw beh (mkScreen lf) st c))) in *.
+  set (st' := snd (fst (draw beh (mkScreen lf) st c))) in *.
+  assert (B101 : bad_101 (vt_bytes cfg v bytes) = false) by exact (sync_clause_101 _ _ _ S').
+  assert (B801 : truthful beh st' (vt_bytes cfg v bytes) = true) by exact (sync_truthful _ _ _ S').
+  assert (B399 : (match wrap cfg with Immediate => true | _ => false end) = false)
+    by (destruct (wrap cfg); try reflexivity; contradiction).
+  assert (B301 : forallb (fun pe : pt * element => cell_eqb (cells (vt_bytes cfg v bytes) (fst pe)) (display_of (snd pe)))
+                         (region_visit c 0 0 (cw c) (ch c)) = true).
+  { apply forallb_forall. intros [[x y] e] Hin. unfold region_visit in Hin.
+    apply in_map_iff in Hin as ([x' y'] & Heq & Hin). inversion Heq; subst x' y' e. cbn [fst snd].
+    apply In_region_points in Hin. rewrite (F' x y) by lia. apply cell_eqb_refl. }
+  assert (B401 : trace_is (placed_cells (mkScreen lf) c)
+                   (changed_cells (if (cw c =? cw lf) && (ch c =? ch lf) then lf else blank_canvas (cw c) (ch c)) c) = true).
+  { unfold placed_cells, prev_frame. cbn [last_frame]. apply trace_is_map. }
+  assert (B401b : (cw c =? cw lf) && (ch c =? ch lf) && list_eqb element_eqb (grid lf) (grid c) &&
+                  negb (no_bytes bytes) = false).
+  { destruct ((cw c =? cw lf) && (ch c =? ch lf)) eqn:Es; [|reflexivity].
+    destruct (list_eqb element_eqb (grid lf) (grid c)) eqn:Eg; [|reflexivity].
+    unfold bytes. rewrite (same_grid_silent lf st c Es Eg). reflexivity. }
+  rewrite B101, B801, B399, B301, B401, B401b.
+  rewrite !andb_false_r. cbn [negb andb fail_if os_fail os_model os_vt os_frame].
+  split; [reflexivity|]. split.
+  - rewrite <- (draw_state lf st c). exact S'.
+  - split; [exact F'|]. split; [reflexivity|]. rewrite <- (draw_state lf st c). exact Hsz'.
+Qed.
+
+End DrawSound.
